@@ -16,7 +16,8 @@ Definition reader_gapfree (x : xreader) : bool :=
   forallb seg_tail_ok (xr_done x ++ [xr_cur x]).
 
 (* the executed transaction has none of the two unprotected read shapes:
-   - no GetWithPrefix was answered by an own write,
+   - no GetWithPrefix was answered by an own write (other than the prefix itself, below which
+     no key can carry the prefix),
    - no key reader segment (between creation/Reset and the next Reset/the end) ends on own writes *)
 Definition gapfree (tx : otx) : bool :=
   negb (t_pown tx) && forallb reader_gapfree (r_readers (t_rs tx)).
